@@ -5,6 +5,7 @@ CONSTANTS
   InitRestated = TRUE
   OriginFromSuper = FALSE
   AllowModifyBusy = FALSE
+  SigCheck = FALSE
   Parent <- Chain3
   Mode = "methq"
   QSels = {{1}, {2}, {3}}
